@@ -5,6 +5,12 @@ props = [json.loads(l) for l in open('properties.jsonl')]
 ids = [p['id'] for p in props]
 # id -> (level, technique, text, note, design_ref)
 checks = {
+ 'C01': ('exploration', 'runtime monitor: semantic-tree-first generation + meaning-preserving factorizer; canonical dump through public accessors compared with the tree the generator started from and across spellings; aliasing and parent-linkage scan',
+         'A generated semantic tree (containers, lists, choices/cases, leaves, actions/notifications with stated or inherited config, mandatory, defaults, min/max, when/must) is rendered inline and then re-factored by PRNG-chosen meaning-preserving steps (groupings local / module / submodule / imported, nested and repeated uses with refines, uses-level and module-level augments in textual order, moves into submodules, decoys under disabled features); every spelling is loaded and its walker dump must equal the semantic tree; clones must not alias each other and Parent() must lead back.',
+         'trusts the factorizer legality rules (scope, suffix, augment ordering); bounded tree size', 'DESIGN.md 3/C01'),
+ 'C02': ('exploration', 'runtime monitor: generator-computed effective type (RFC 7950 derivation) vs the type read through public accessors on every expansion of every generated leaf',
+         'Typedef chains of depth 0..4 over all restrictable built-ins with each level in a PRNG-chosen scope (module, own prefix, local, submodule, imported), restrictions / default / units stated at any subset of levels and on the leaf, sibling leaves deriving from the same typedef, enumerations and bits with mixed stated/automatic values, unions, leafrefs (relative, forward, absolute, chained, typedef, imported), identity DAGs over import chains of up to 4 modules with shared prefixes, lexical-scope decoys in both modules; the leaf sits in a grouping used 0..4 times and every expansion is compared field by field.',
+         'trusts the generator-side derivation (about 60 lines); patterns of derived types: see known finding', 'DESIGN.md 3/C02'),
  'C11': ('exploration', 'runtime monitor: independent recursive-descent if-feature evaluator, exhaustive over expressions x assignments x configuration style; dump diff for deviations',
          'Every if-feature expression with <= 3 (thorough: <= 4) operators over 3 features is loaded under all 8 assignments with allow-list, deny-list and default configuration; each guardable statement kind and features of an imported module are covered; malformed expressions must be load errors; for deviations the canonical dumps with and without the deviation may differ in exactly the named paths (incl. several deviate kinds in one deviation).',
          'exhaustive for the stated expression bound only; deviations are a fixed catalog of 30', 'DESIGN.md 3/C11'),
